@@ -10,3 +10,4 @@ import ShkModel.Props.C17
 import ShkModel.Props.C04
 import ShkModel.Props.C05
 import ShkModel.Props.C07
+import ShkModel.Props.C16
